@@ -400,6 +400,7 @@ class Session:
 
     def run(self, spec, polfactory, barrier_log=None, idle_limit=400):
         starts = [len(e) for e in self.mon.events]
+        self.c0 = [tuple(mpc._program_counter) for mpc in self.sim.mpcs]
         with quiet():
             res = self.sim.run(make_prog(spec, self.mon, barrier_log), polfactory(), idle_limit=idle_limit)
         return res, starts
@@ -693,8 +694,7 @@ def run(ctx):
                         break
                     # cross-schedule / cross-party label agreement, via the Coq model
                     trees = [sess.mon.tree(i, starts[i]) for i in range(m)]
-                    c0s = [next((e[2] for e in sess.mon.events[i][starts[i]:] if e[0] == sess.mon.base[i] and e[1] == 'fork'), None)
-                           for i in range(m)]
+                    c0s = sess.c0
                     if (ci, pi) not in ref_trees:
                         ref_trees[(ci, pi)] = (pn, trees[0], c0s[0])
                         if c0s[0] is not None and len(replay_items) < ctx.n(16, 60) and not with_mod:
